@@ -91,7 +91,8 @@ class SysGen:
     FQDN = {"svc-a": "svc-a.default.svc.cluster.local", "svc-b": "svc-b.default.svc.cluster.local",
             "svc-c.default": "svc-c.default.svc.cluster.local"}
     PLAIN_LIS = ["l1", "l2", "l3", "virtualInbound"]
-    NAMES = {"rds": ["rc-a", "rc-b", "rc-c", "rc-d"], "cds": ["c1", "c2", "c3", "c4"], "eds": ["e1", "e2", "e3", "eds-1"]}
+    # "same" occurs in every pool: a cluster, its endpoint set and a route table often share their name
+    NAMES = {"rds": ["rc-a", "rc-b", "rc-c", "same"], "cds": ["c1", "c2", "c3", "same"], "eds": ["e1", "e2", "same", "eds-1"]}
 
     def __init__(self, rng, faults=False, policy=None):
         self.r = rng
@@ -174,6 +175,15 @@ class SysGen:
             else:
                 res = endpoints(n, st, nloc=r.choice([0, 1, 1, 2]), nep=r.choice([0, 1, 2]))
             op["resources"].append(C("RGood", res))
+        # the exact bytes of a resource the previous response of this type carried, under another kind's type url
+        prev_good = getattr(self, "_prev_good", None)
+        if prev_good is None:
+            prev_good = self._prev_good = {}
+        if rt in prev_good and r.random() < 0.08:
+            op["resources"].insert(r.randint(0, len(op["resources"])), C("RWrongUrlOf", prev_good[rt]))
+        goods = [x for x in op["resources"] if x[0] == "RGood"]
+        if goods:
+            prev_good[rt] = r.choice(goods)[1]
         k = r.random()
         if k < 0.08:
             op["resources"].insert(r.randint(0, len(op["resources"])), C("RUnparsable"))
